@@ -55,6 +55,8 @@ def run(ctx):
     stream_error_positions(ctx)
     from .c06 import bom_read_and_seek
     bom_read_and_seek(ctx, "C05.13", "C05.14")
+    from .c06 import prescan_buffer_complete
+    prescan_buffer_complete(ctx, "C05.16")
     r.rule("C05.1", "CR LF replacement precedes lone CR replacement on the same variable", floor=1)
     r.rule("C05.2", "carry-over stores are paired (buffer<->truncate, re-inject<->clear)", floor=2)
     r.rule("C05.3", "every non-empty read evaluates the trailing-CR / lead-surrogate test before normalisation", floor=2)
